@@ -213,7 +213,7 @@ def stage_decode(ctx, rng, gv, gm):
                                        (b'a,"b""c"\r\n"x\r\ny",z\r\n', 44, 34), (BOM + b"a,b\n1,2\n", 44, 34),
                                        (b"a|'b''c'\n'',|\n", 124, 39), (b'a,b\n"",""\n"",c\n', 44, 34),
                                        (BOM + b"a\n", 44, 34), (BOM, 44, 34), (BOM[:2], 44, 34), (BOM[:2] + b"a\n1\n", 44, 34),
-                                       (BOM[:1] + b'"' + BOM + b'"\n', 44, 34)]):
+                                       (b'"' + BOM + b'",' + BOM + b"\n", 44, 34)]):
         for flush in (False, True):
             cases.append({"id": "w%d-%d" % (j, flush), "delim": dl, "quote": q, "hex": txt.hex(), "mode": "all2",
                           "flush": flush, "cap": 0, "final_empty": True, "wf": True})
